@@ -145,6 +145,7 @@ class Interp(ExprMixin):
         self.cur_where = ""
         self.loop_ctx: List[Any] = []
         self.shared: Dict[str, Any] = {}
+        self.global_choice: Dict[str, int] = {}
         self.summarise_funcs: set = set()
         self.eager_typeof = False
         self._cur_args: List[V] = []
@@ -166,8 +167,9 @@ class Interp(ExprMixin):
             self._reset(script)
             res: Optional[PathResult] = None
             try:
+                self._cur_args = None  # type: ignore[assignment]
                 module, fn, args, kwargs, cls = setup(self)
-                if not self._cur_args or self._cur_args is not args:
+                if self._cur_args is None:
                     self._cur_args = [a for a in args]
                 try:
                     v = self.call_function(module, fn, args, kwargs, cls, toplevel=True)
@@ -177,8 +179,8 @@ class Interp(ExprMixin):
             except PathAbort:
                 res = None
             if res is not None:
-                res.entry["arg_kinds"] = [set(a.kinds) if isinstance(a, NodeV) else None for a in self._cur_args]
-                res.entry["args"] = list(self._cur_args)
+                res.entry["arg_kinds"] = [set(a.kinds) if isinstance(a, NodeV) else None for a in (self._cur_args or [])]
+                res.entry["args"] = list(self._cur_args or [])
                 results.append(res)
             # next script
             tr = self.trace
@@ -200,6 +202,7 @@ class Interp(ExprMixin):
         self.sym_neq = {}
         self.truth = {}
         self.loop_ctx = []
+        self.global_choice = {}
 
     def choose(self, n: int, tag: str = "") -> int:
         if n <= 0:
